@@ -35,7 +35,7 @@ THEOREMS["C06"] = [("Flurry.Props.C06", [
     "Flurry.C06.untreeify_sizes", "Flurry.C06.set_value_preserves", "Flurry.C06.tree_find_iff_mem",
     "Flurry.C06.tree_find_none_iff", "Flurry.C06.lookup_cost", "Flurry.C06.height_log",
     "Flurry.C06.validator_iff", "Flurry.C06.inserts_preserve"])]
-THEOREMS["C19"] = [("Flurry.Props.C19", [
+THEOREMS["C19"] = [("Flurry.Props.C10", ["Flurry.C10.fill_then_forward_then_retire"]), ("Flurry.Props.C19", [
     "Flurry.C19.deserialize_total", "Flurry.C19.set_policy_no_failure", "Flurry.C19.deserializeFrom_lastWins",
     "Flurry.C19.roundtrip", "Flurry.C19.roundtrip_current", "Flurry.C19.lookup_insertAll",
     "Flurry.C19.par_extend_any_order"])]
@@ -46,15 +46,15 @@ THEOREMS["C16"] = [("Flurry.Props.C16", [
 THEOREMS["C17"] = [("Flurry.Props.C17", [
     "Flurry.C17.inserting_needs_send_sync", "Flurry.C17.lookup_unbounded", "Flurry.C17.binentry_conditional"])]
 
-THEOREMS["C01"] = [("Flurry.Props.C01", [
+THEOREMS["C01"] = [("Flurry.Props.C10", ["Flurry.C10.fill_then_forward_then_retire"]), ("Flurry.Props.C13", ["Flurry.C13.wrappers_delegate_by_name"]), ("Flurry.Props.C01Bin", ["Flurry.Proto.Bin.bin_linearizable", "Flurry.Proto.Bin.bin_linearizable_quiescent", "Flurry.Proto.Bin.bin_linearizable_writers", "Flurry.Proto.Bin.writers_mutex", "Flurry.Proto.Bin.writerStore_spec", "Flurry.Proto.Bin.reachable_inv"]), ("Flurry.Props.C01BinW", ["Flurry.Proto.BinW.binw_linearizable", "Flurry.Proto.BinW.binw_linearizable_quiescent", "Flurry.Proto.BinW.storeAt_eq_writerStore_reachable", "Flurry.Proto.BinW.walkers_mutex", "Flurry.Proto.BinW.binw_simulated"]), ("Flurry.Lemmas.BinWExamples", ["Flurry.Proto.BinW.noCheck_not_linearizable_doubleRemove", "Flurry.Proto.BinW.noCheck_not_linearizable_lostInsert", "Flurry.Proto.BinW.noCheck_refutes"]), ("Flurry.Props.C01", [
     "Flurry.C01.certificate_sound", "Flurry.C01.decision_correct", "Flurry.C01.not_linearizable_iff",
     "Flurry.C01.linearization_points", "Flurry.C01.no_resurrection", "Flurry.C01.reads_pure",
     "Flurry.C01.insert_then_read", "Flurry.C01.remove_then_read", "Flurry.C01.final_read"])]
-THEOREMS["C08"] = [("Flurry.Props.C08", [
+THEOREMS["C08"] = [("Flurry.Props.C13", ["Flurry.C13.wrappers_delegate_by_name"]), ("Flurry.Props.C01Bin", ["Flurry.Proto.Bin.bin_linearizable", "Flurry.Proto.Bin.bin_linearizable_quiescent", "Flurry.Proto.Bin.writers_mutex"]), ("Flurry.Props.C01BinW", ["Flurry.Proto.BinW.binw_linearizable_quiescent", "Flurry.Proto.BinW.storeAt_eq_writerStore_reachable"]), ("Flurry.Props.C08", [
     "Flurry.C08.counter_no_lost_update", "Flurry.C08.absent_not_applied", "Flurry.C08.replaces_what_it_read",
     "Flurry.C08.removal_is_atomic"])]
 
-THEOREMS["C10"] = THEOREMS["C10"] + [("Flurry.Props.C10", ["Flurry.C10." + n for n in "helper_accounting bin_migrated_at_most_once all_bins_migrated_at_publication one_finisher one_publication_per_generation generations_do_not_overlap initiation_only_from_idle quiescent_after_resize resize_completes no_stale_join joiner_holds_current_generation join_admits_current_generation help_refusal_matches_model".split()])]
+THEOREMS["C10"] = THEOREMS["C10"] + [("Flurry.Props.C10", ["Flurry.C10." + n for n in "helper_accounting bin_migrated_at_most_once all_bins_migrated_at_publication one_finisher one_publication_per_generation generations_do_not_overlap initiation_only_from_idle quiescent_after_resize resize_completes no_stale_join joiner_holds_current_generation join_admits_current_generation help_refusal_matches_model fill_then_forward_then_retire".split()])]
 
 
 THEOREMS["C15"] = [("Flurry.Props.C15", ["Flurry.C15." + n for n in "handover_hb path_hb relaxed_writes_private publication_points_release reader_loads_acquire read_lock_rmw_acqrel sites_present".split()])]
@@ -65,10 +65,10 @@ def _thms(ns, names):
 
 THEOREMS["C02"] = [("Flurry.Props.C02", _thms("C02", "step_refines len_spec seq_refines seq_refines_from first_key_kept try_insert_present"))]
 THEOREMS["C05"] = [("Flurry.Props.C05", _thms("C05", "iter_agrees iter_agrees_abs wf_reachable wf_reachable_new wf_reachable_collect wf_reachable_clone wf_unfold"))]
-THEOREMS["C13"] = [("Flurry.Props.C13", _thms("C13", "retain_eq_filter retain_force_eq_filter retain_removes_only_rejected retain_capacity"))]
+THEOREMS["C13"] = [("Flurry.Props.C13", _thms("C13", "retain_eq_filter retain_force_eq_filter retain_removes_only_rejected retain_capacity wrappers_delegate_by_name"))]
 THEOREMS["C14"] = THEOREMS["C14"] + [("Flurry.Props.C14", _thms("C14", "never_shrinks removal_never_grows threshold_three_quarters grow_only_when grow_only_when_ins grow_only_when_uninit no_growth_below_threshold no_growth_with_room no_growth_with_room_bins no_growth_with_room_hash reserve_threshold_room no_growth_after_reserve no_growth_after_reserve_bins table_len_pow2 reachable_never_shrinks reachable_removal_never_grows reachable_table_len_pow2"))]
 THEOREMS["C18"] = [("Flurry.Props.C18", _thms("C18", "cip_panic_unchanged cip_panics_iff cip_no_write_before_callback retain_panic_prefix retain_loop_append after_panic_continues cip_panic_absMap"))]
-THEOREMS["C03"] = [("Flurry.Props.C03", _thms("C03", "held_references_valid no_touch_after_free free_waits_for_holders retire_only_after_unlink unlinked_not_acquirable unprotected_guard_is_unsafe publication_needs_guard"))]
+THEOREMS["C03"] = [("Flurry.Props.C10", ["Flurry.C10.fill_then_forward_then_retire"]), ("Flurry.Props.C03", _thms("C03", "held_references_valid no_touch_after_free free_waits_for_holders retire_only_after_unlink unlinked_not_acquirable unprotected_guard_is_unsafe publication_needs_guard"))]
 THEOREMS["C04"] = [("Flurry.Props.C04", _thms("C04", "freed_at_most_once freed_only_after_guards freed_was_retired retired_is_eventually_freed refused_insert_changes_nothing"))]
 THEOREMS["C07"] = [("Flurry.Props.C07", _thms("C07", "traverse_frozen yields_each_once terminates quiescent_order"))]
 THEOREMS["C11"] = [("Flurry.Props.C11", _thms("C11", "no_lost_wakeup writer_not_blocked_without_readers never_stuck writer_eventually_enabled parked_writer_woken writer_excludes_tree_readers"))]
@@ -176,7 +176,17 @@ def seq_step(R, prop, own_classes=None, seeds=None, life=False):
         seed, cases = rounds.pop(0)
         res = S.run(seed, cases, max_ops=t["seq_ops"], life=life)
         if res.get("report") is None:
-            if res.get("rc", 0) not in (0, 2):
+            if res.get("rc", 0) == 97:
+                # the watchdog: an operation of a single-threaded sequence never returned
+                where = res.get("crash_at", "?")
+                m = re.search(r"case-seed (\d+)", where)
+                msg = "[hang] an operation of a single-threaded operation sequence did not return within 30 s (a lock or a resize left behind by an earlier operation) while running %s" % where
+                how = {"suite": "seq", "how": "%s seq-replay --case-seed %s --max-ops %d" % (C.HARNESS_BIN, m.group(1) if m else "?", t["seq_ops"])}
+                if prop in ("C11", "C18", "C02", "C05", "C13", "C08", "C14", "C06", "C10"):
+                    R.add_failing(msg, how)
+                else:
+                    R.add_broken("harness run did not finish: " + msg)
+            elif res.get("rc", 0) not in (0, 2):
                 where = res.get("crash_at", "?")
                 m = re.search(r"case-seed (\d+)", where)
                 R.add_failing("[crash] the harness process died (exit %s) while running %s: memory corruption or abort inside the implementation" % (res.get("rc"), where),
@@ -198,6 +208,8 @@ def seq_step(R, prop, own_classes=None, seeds=None, life=False):
         if not samples:
             samples = rep["samples"][:2]
         for f in rep["failures"]:
+            if discipline(R, prop, f):
+                continue
             if own & set(S.props_of_failure(f)):
                 found_fail = True
                 m = re.search(r"\[case-seed (\d+)\]", f)
@@ -244,9 +256,27 @@ def conc_props_of(f):
         ps.append("C08")
     if tag == "quiescent" and re.search(r"size_ctl|next_table|forwarding", f):
         ps.append("C10")
+    if tag == "quiescent" and re.search(r"power of two|longer than|size_ctl=\d+ but", f):
+        ps.append("C14")
+    if tag == "quiescent" and re.search(r"lookup cost|tree bin \d+ locked|black|red|bin \d+: ", f):
+        ps.append("C06")
     if tag == "panic" and re.search(r"inside `(iter|frozeniter)", f):
         ps.append("C07")
     return ps
+
+
+# the lock discipline (`wCheck` of Proto/Bin: re-read the bin cell after locking the node seen as
+# head) underlies every property that is argued through the validated bin lock
+DISCIPLINE_PROPS = ("C01", "C03", "C08", "C13")
+
+
+def discipline(R, prop, f):
+    """a `[discipline]` line is a broken correspondence with the Bin model, not a failing input"""
+    if not f.startswith("[discipline]"):
+        return False
+    if prop in DISCIPLINE_PROPS:
+        R.add_broken("correspondence implementation-vs-Proto/Bin (step wCheck): " + f[13:400])
+    return True
 
 
 def stress_props_of(f):
@@ -254,7 +284,7 @@ def stress_props_of(f):
         return ["C11"]
     ps = []
     if "own-key history" in f or "foreign read" in f or "contents differ" in f or "get(" in f:
-        ps.append("C01")
+        ps += ["C01", "C19"]
     if "quiescent:" in f:
         ps.append("C05")
     if re.search(r"size_ctl|next_table|forwarding|drop:", f):
@@ -268,6 +298,10 @@ def stress_step(R, prop):
     """unscheduled oversubscribed stress on fresh small maps with thread-owned keys: a supporting
     search for failing inputs (real preemption inside the resize and bin protocols), never a proof"""
     secs = 6 if R.tier == "quick" else 120
+    if R.broken and not R.failing:
+        # a proof obligation or a correspondence is broken and no failing input is known yet:
+        # search longer
+        secs = max(secs, 45)
     rc, out = C.sh([C.HARNESS_BIN, "stress", "--seed", str(R.seed), "--secs", str(secs)], timeout=secs + 120)
     lines = [l for l in out.splitlines() if l.startswith("{")]
     how = "%s stress --seed %d --secs %d   (real threads: probabilistic)" % (C.HARNESS_BIN, R.seed, secs)
@@ -334,7 +368,7 @@ def _conc_step_one(R, prop, extra_args=None, cases=None, suite="conc"):
                 continue
             b = "%s.%d" % (base, j)
             cmd = [C.HARNESS_BIN, suite, "--seed", str(seed), "--first", str(first), "--cases", str(cnt), "--lin", b + ".lin", "--progress", b + ".progress"]
-            if prop == "C10":
+            if prop in ("C10", "C14"):
                 cmd += ["--ctl", b + ".ctl"]
             if R.tier == "thorough":
                 cmd += ["--big", "1"]
@@ -365,7 +399,10 @@ def _conc_step_one(R, prop, extra_args=None, cases=None, suite="conc"):
                     agg[k] = max(agg[k], rep[k]) if k == "hook_sites" else agg[k] + rep[k]
             samples = samples or rep.get("samples", [])[:2]
             for f in rep["failures"]:
-                if prop in conc_props_of(f):
+                if discipline(R, prop, f):
+                    continue
+                # C19's parallel half is "concurrent inserts from a thread pool": it inherits C01
+                if prop in conc_props_of(f) or (prop == "C19" and f.startswith(("[lin]", "[quiescent]", "[crash]"))):
                     m = re.search(r"\[case-seed (\d+)\]", f)
                     R.add_failing(f, {"suite": suite, "how": "%s %s %s --case-seed %s --verbose 1" % (C.HARNESS_BIN, suite, " ".join(extra_args or []), m.group(1) if m else "?")})
             if os.path.exists(b + ".lin"):
@@ -376,7 +413,7 @@ def _conc_step_one(R, prop, extra_args=None, cases=None, suite="conc"):
             for ext in (".lin", ".progress", ".ctl"):
                 if os.path.exists(b + ext):
                     os.remove(b + ext)
-        if prop == "C10" and os.path.exists(C.MODEL_BIN) and ctl_src:
+        if prop in ("C10", "C14") and os.path.exists(C.MODEL_BIN) and ctl_src:
             # the run's accesses to size_ctl / transfer_index / table / next_table, replayed by the
             # Lean monitor of the resize theorems' conclusions (Proto/ResizeMonitor.lean)
             heads = [l for l in ctl_src if l.startswith("#")]
@@ -446,6 +483,11 @@ def check_C14(R):
     lean_step(R, "C14")
     if harness_step(R):
         seq_step(R, "C14")
+        # the statement quantifies over operation sequences; the clauses "power-of-two length,
+        # never shrinks, threshold three quarters" are also watched on scheduled concurrent runs
+        # (first-insert races, concurrent growth): structural validator at quiescence and the Lean
+        # monitor of the control words
+        conc_step(R, "C14", modes=("first", "mixed", "resize"), merge=True)
 
 
 def lean_eval(imports, body, timeout=600):
@@ -530,6 +572,9 @@ def check_C06(R):
     lean_step(R, "C06")
     if harness_step(R):
         seq_step(R, "C06")
+        # tree bins under contention: shape and colours at quiescence, the lock word back to 0,
+        # lookup cost measured after the run
+        conc_step(R, "C06", modes=("tree", "treeresize"), merge=True)
 
 
 def check_C19(R):
@@ -580,6 +625,11 @@ def check_C19(R):
                   "distinct_nontrivial": total["docs_with_repeated_keys"],
                   "rule": "JSON documents over 1-12 keys with repetitions (maps and sets) through serde_json::from_str under catch_unwind, compared with the Lean visitor-loop model and with std's last-wins semantics; round trips of the same contents; par_extend/from_par_iter on pools of 1-8 threads against the key-set/value-membership predicate; non-trivial = the document repeats a key",
                   "samples": samples[:3], **total})
+    # the parallel paths are concurrent `insert`s of a thread pool: the scheduled insert/resize
+    # suites of C01 (incl. tree bins that are split while threads insert into them) are replayed
+    # here; a non-linearizable insert history is a par_extend that differs from sequential insertion
+    conc_step(R, "C19", modes=("treeresize", "resize"), merge=True, cases=TIERS[R.tier]["conc_cases"] // 2)
+    stress_step(R, "C19")
 
 
 def check_C16(R):
